@@ -92,7 +92,9 @@ def gen_case(rng, idx):
     boxed = is_async and not generic and not any(('&' in (p.decl or '')) for p in ps) and rng.random() < 0.4
     # an `async fn` that RETURNS a future (its tail expression is `Box::pin(async move { … })`): an ordinary async fn to the
     # attribute — one span around the async fn's own body; the returned future is the caller's business and runs outside it
-    retfut = is_async and not boxed and not generic and not any(('&' in (p.decl or '')) for p in ps) and rng.random() < 0.2
+    # (systematic: every second block of async cases takes this shape whenever its parameters allow — regression pass after round 9:
+    #  seeded6/C17 needs it and a 0.2 draw left some corpora without one)
+    retfut = is_async and not boxed and not generic and not any(('&' in (p.decl or '')) for p in ps) and (rng.random() < 0.1 or (idx // 8) % 6 == 5)
     # ---- return shape
     shape = ['unit', 'value', 'ok', 'err', 'question', 'panic', 'early', 'impl'][idx % 8]
     if is_async and shape == 'impl': shape = 'early'
